@@ -239,6 +239,9 @@ def cubic_spline(
         alpha = (-2 * c) / (b + torch.sqrt(b.pow(2) - 4 * a * c))
         outputs[quadratic_mask] = alpha + input_left_cumwidths[quadratic_mask]
 
+        # The root lies in the selected bin; rounding must not push it (and the derivative below) outside.
+        outputs = torch.max(torch.min(outputs, input_right_cumwidths), input_left_cumwidths)
+
         shifted_outputs = outputs - input_left_cumwidths
         logabsdet = -torch.log(
             (
